@@ -1,11 +1,13 @@
 #!/bin/sh
-# runs every thorough check once, records wall time and verdict in /tmp/thorough.log, then restores quick evidence
+# runs thorough checks (all, or those named) one at a time, records wall time and verdict in $LOG (default /tmp/thorough.log)
 cd "$(dirname "$0")/.."
-: > /tmp/thorough.log
-for p in C03 C06 C15 C16 C07 C04 C09 C13 C02 C05 C08 C01 C14 C10 C17 C18 C11 C12 C19; do
+LOG=${LOG:-/tmp/thorough.log}
+: > $LOG
+list=${*:-C03 C06 C15 C16 C07 C04 C09 C13 C02 C05 C08 C01 C14 C10 C17 C18 C11 C12 C19}
+for p in $list; do
   s=$(date +%s)
   out=$(timeout 7200 ./check $p --tier thorough 2>/tmp/thorough_$p.err); rc=$?
   e=$(date +%s)
-  echo "$p rc=$rc wall=$((e-s))s $(echo "$out" | grep -c VIOLATION) violations; $(tail -1 /tmp/thorough_$p.err)" >> /tmp/thorough.log
+  echo "$p rc=$rc wall=$((e-s))s $(echo "$out" | grep -c VIOLATION) violations; $(tail -1 /tmp/thorough_$p.err)" >> $LOG
 done
-echo done >> /tmp/thorough.log
+echo done >> $LOG
